@@ -27,6 +27,8 @@ pub struct Obs {
     pub type_monitor: bool,
     pub type_errors: Vec<String>,
     pub stray_bits: u64,
+    /// operations that produced a bit array with non-zero padding bits
+    pub stray_ops: Vec<String>,
     pub nodes_seen: u64,
     pub values_checked: u64,
     /// record the (last) value of every node, keyed by (graph id, node id)
@@ -61,6 +63,7 @@ impl Obs {
             type_monitor: false,
             type_errors: vec![],
             stray_bits: 0,
+            stray_ops: vec![],
             nodes_seen: 0,
             values_checked: 0,
             keep_values: false,
@@ -181,7 +184,12 @@ impl Evaluator for Obs {
                     .push(format!("check_type error: op {} : {}", op, e)),
             }
             match layout_check(&res, &t) {
-                Ok(s) => self.stray_bits += s,
+                Ok(s) => {
+                    self.stray_bits += s;
+                    if s > 0 && self.stray_ops.len() < 4 {
+                        self.stray_ops.push(format!("{}", op));
+                    }
+                }
                 Err(e) => self.type_errors.push(format!("layout: op {} : {}", op, e)),
             }
         }
